@@ -21,6 +21,21 @@ import (
 
 var vCurEvent *Event
 
+// vInEventPool: is e among the next few objects the event pool hands out? (They are put back.)
+func vInEventPool(e *Event) bool {
+	var got []*Event
+	found := false
+	for i := 0; i < 8 && !found; i++ {
+		x := eventPool.Get().(*Event)
+		got = append(got, x)
+		found = x == e
+	}
+	for i := len(got) - 1; i >= 0; i-- {
+		eventPool.Put(got[i])
+	}
+	return found
+}
+
 type vOrderWriter struct {
 	vWriter
 	pooledEarly bool
@@ -31,11 +46,9 @@ type vOrderWriter struct {
 // object from the event pool must not hand out the event being written (works natively too:
 // sync.Pool returns the most recently Put object of this goroutine first).
 func (w *vOrderWriter) WriteLevel(l Level, p []byte) (int, error) {
-	x := eventPool.Get().(*Event)
-	if x == vCurEvent {
+	if vInEventPool(vCurEvent) {
 		w.pooledEarly = true
 	}
-	eventPool.Put(x)
 	w.complete = append(w.complete, vLine(p))
 	return w.vWriter.WriteLevel(l, p)
 }
@@ -78,8 +91,7 @@ func VH_C06_finalizers() {
 	if len(w.calls) == 1 {
 		zzverif.Assert(w.complete[0], "O3: the writer receives one complete line")
 		zzverif.Assert(!w.pooledEarly, "O3: the event is not in the pool while its bytes are being written")
-		x := eventPool.Get().(*Event)
-		zzverif.Assert(x == e, "O3: after the write the event has been returned to the pool")
+		zzverif.Assert(vInEventPool(e), "O3: after the write the event has been returned to the pool")
 	} else {
 		zzverif.Assert(len(w.calls) == 0, "O3: at most one write per event")
 	}
